@@ -105,7 +105,8 @@ def gen_c12(rng):
             else:
                 if rng.random() < 0.5:
                     st['mode'] = 'bits'
-                    st['bits'] = rng.choice([1, 2, 3, 4, 6, 8, 16])
+                    # 0 = an explicit but empty bit selection: nothing is masked
+                    st['bits'] = rng.choice([0, 0, 1, 2, 3, 4, 6, 8, 16])
                 else:
                     st['mode'] = 'none'
             # the cached count is queried before the call so that a stale cache is visible after it
@@ -163,6 +164,9 @@ def gen_c11(rng):
         hist.append(mk)
         if rng.random() < 0.85:
             hist += fill_steps(rng, mk, h, rng.randint(1, 3), forms=('pix', 'pix', 'setitem_arr'))
+        if rng.random() < 0.3:
+            # the same content over storage that does not own its memory (cannot be resized in place)
+            hist.append(dict(op='rewrap', h=h, out=h, pad=rng.randint(0, 5)))
         hist.append(chk(h))
     nxt = nm
     live = list(range(nm))
@@ -532,11 +536,22 @@ def gen_c13(rng):
         elif r < 0.6:
             hist.append(dict(op='bits', h=0, which='set', pixels=rand_pixels(rng, mk, unique=False, nmax=8),
                              bits=bitlist()))
-        elif r < 0.85:
+        elif r < 0.8:
             hist.append(dict(op='bits', h=0, which='clear', pixels=rand_pixels(rng, mk, unique=False, nmax=8),
                              bits=bitlist()))
-        else:
+        elif r < 0.88:
             hist.append(dict(op='sop', h=0, out=0, inplace=True, fn=rng.choice(['&', '|', '^']), bits=bitlist()))
+        else:
+            # update_values_pix with one packed row per pixel; for or/and a pixel is repeated with a
+            # different row (accumulation over repeated pixels)
+            st = rand_update(rng, mk, h=0, forms=('pix',))
+            if st['operation'] in ('or', 'and') and isinstance(st.get('values'), list) and not st.get('single') \
+                    and st['pixels']:
+                for _ in range(rng.randint(1, 2)):
+                    j = rng.randrange(len(st['pixels']))
+                    st['pixels'].append(st['pixels'][j])
+                    st['values'].append(rand_value(rng, mk))
+            hist.append(st)
         hist.append(chk(0))
         hist.append(dict(op='chkbits', h=0, bitlists=[[b] for b in interesting] + [bitlist()]))
     return hist
@@ -849,11 +864,14 @@ def gen_c03(rng):
 # ------------------------------------------------------------------ C10: twins by different routes
 def gen_c10(rng):
     route = rng.choice(['shuffled', 'prealloc', 'cleared', 'wr', 'wr_partial', 'degrade', 'upgrade', 'astype', 'sop', 'single',
-                        'covpixmap', 'mop', 'copy', 'mklike', 'bmap'])
+                        'covpixmap', 'mop', 'copy', 'mklike', 'bmap', 'rewrap', 'shuffled_f'])
     cfg = rng.choice([(1, 4), (2, 4), (2, 8), (1, 8), (4, 8)])
     hist = []
     if route in ('degrade', 'upgrade', 'astype', 'sop', 'mop'):
         mk = mk_plain(rng, 0, cfg, rng.choice(['f8', 'f4', 'i4', 'i8']), sentinel=None)
+    elif route == 'shuffled_f':
+        # a float map grown in arbitrary order (continuations with weights apply to these)
+        mk = mk_plain(rng, 0, cfg, rng.choice(FLT_DT), sentinel=None)
     elif route == 'single':
         mk = pick_map(rng, kinds=('rec',), h=0)
         mk['nc'], mk['ns'] = cfg
@@ -921,6 +939,9 @@ def gen_c10(rng):
     elif route == 'copy':
         hist.append(dict(op='copy', h=0, out=1))
         m1 = 1
+    elif route == 'rewrap':
+        hist.append(dict(op='rewrap', h=0, out=1, pad=rng.randint(0, 5)))
+        m1 = 1
     elif route == 'mklike':
         hist.append(dict(op='mklike', h=0, out=1))
         m1 = 1
@@ -937,9 +958,29 @@ def gen_c10(rng):
     hist.append(dict(op='sameas', h=m1, ref=m2, what='a map and its canonical rebuild differ'))
     # continuation on both twins
     nxt = 30
+    is_float_twin = (mk['kind'] == 'plain' and mk.get('dtype') in FLT_DT and mk.get('sentinel') is None
+                     and route not in ('degrade', 'upgrade', 'astype', 'single', 'covpixmap', 'mklike', 'mop'))
     for _ in range(rng.randint(1, 3)):
         q = rng.random()
-        if q < 0.35:
+        if is_float_twin and q < 0.3:
+            # weighted degrade: each twin serves as the weights' layout for the other (weights v*v + 1 > 0)
+            w1, w2 = nxt, nxt + 1
+            for src, dst in ((m1, w1), (m2, w2)):
+                hist.append(dict(op='sop', h=src, out=dst, inplace=False, fn='**', scalar=2.0))
+                hist.append(dict(op='sop', h=dst, out=dst, inplace=True, fn='+', scalar=1.0))
+            nso = rng.choice([n for n in (1, 2, 4) if n < cfg[1]])
+            hist.append(dict(op='degrade', h=m2, out=nxt + 2, nside_out=nso, reduction='wmean', hw=w1))
+            hist.append(dict(op='degrade', h=m2, out=nxt + 3, nside_out=nso, reduction='wmean', hw=w2))
+            hist.append(dict(op='degrade', h=m1, out=nxt + 4, nside_out=nso, reduction='wmean', hw=w2))
+            hist.append(chk(nxt + 2, ['values', 'cov', 'valid', 'nvalid']))
+            hist.append(chk(nxt + 3, ['values', 'cov', 'valid', 'nvalid']))
+            hist.append(chk(nxt + 4, ['values', 'cov', 'valid', 'nvalid']))
+            hist.append(dict(op='sameas', h=nxt + 2, ref=nxt + 3,
+                             what='weighted degrade differs with content-equal weights of another layout'))
+            hist.append(dict(op='sameas', h=nxt + 4, ref=nxt + 3,
+                             what='weighted degrade of content-equal maps differs'))
+            nxt += 5
+        elif q < 0.35:
             a = dict(op='grow', h=m1, which=rng.randrange(5), off=rng.randrange(16), alt=rng.randrange(40))
             hist += [a, dict(a, h=m2)]
         elif q < 0.55:
@@ -1122,7 +1163,20 @@ def gen_c18(rng):
         vals = [rand_value(rng, mk, allow_sentinel=False) for _ in pix]
         if kind == 'wide':
             vals = [v or 1 for v in vals]
-        hist.append(dict(op='upd', h=k, form='pix', operation='replace', expect='ok', pixels=pix, values=vals, single=False))
+        if rng.random() < 0.6 and len(pix) > 1:
+            # several updates, highest coverage pixels first: the file's block order then differs from
+            # the ascending pixel order
+            nf_k = (ns // mk['nc']) ** 2
+            order = sorted(range(len(pix)), key=lambda j: -(pix[j] // nf_k))
+            nchunk = rng.randint(2, 3)
+            size = max(1, (len(order) + nchunk - 1) // nchunk)
+            for c0 in range(0, len(order), size):
+                sel = order[c0:c0 + size]
+                hist.append(dict(op='upd', h=k, form='pix', operation='replace', expect='ok',
+                                 pixels=[pix[j] for j in sel], values=[vals[j] for j in sel], single=False))
+        else:
+            hist.append(dict(op='upd', h=k, form='pix', operation='replace', expect='ok', pixels=pix, values=vals,
+                             single=False))
         hs.append(k)
     st = dict(op='cat', hs=hs, out=20, nside_coverage_out=nc_out)
     if rng.random() < 0.5 or overlap_wanted:
@@ -1232,7 +1286,7 @@ def gen_c20(rng):
     cfg = rng.choice([(1, 4), (2, 8), (4, 16), (2, 16), (8, 32)])
     mk = mk_plain(rng, 0, cfg, rng.choice(['f8', 'i4', 'b']), sentinel=None)
     npix = npix_of(cfg)
-    shape = rng.choice(['single', 'scatter', 'cap_n', 'cap_s', 'lon0', 'patches', 'small'])
+    shape = rng.choice(['single', 'scatter', 'cap_n', 'cap_s', 'lon0', 'patches', 'small', 'polar_lon0', 'polar_lon0'])
     ns = cfg[1]
     if shape == 'single':
         pix = [rng.randrange(npix)]
@@ -1243,6 +1297,22 @@ def gen_c20(rng):
         pix = [int(p) for p in hpg.query_circle(ns, 10.0, lat, 6.0)]
     elif shape == 'lon0':
         pix = [int(p) for p in hpg.query_circle(ns, rng.choice([0.0, 359.5, 1.0]), rng.uniform(-50, 50), 8.0)]
+    elif shape == 'polar_lon0':
+        # near a pole and wrapping through longitude zero, filling whole coverage pixels
+        cfg = rng.choice([(8, 32), (16, 64), (32, 128)])
+        mk = mk_plain(rng, 0, cfg, rng.choice(['f8', 'f4']), sentinel=None)
+        ns = cfg[1]
+        npix = npix_of(cfg)
+        sgn = rng.choice([1.0, -1.0])
+        lo, hi = sorted([sgn * rng.uniform(80.0, 84.0), sgn * rng.uniform(86.0, 89.5)])
+        hw = rng.uniform(15.0, 30.0)
+        cra, cdec = hpg.pixel_to_angle(cfg[0], list(range(12 * cfg[0] ** 2)))
+        covp = [c for c in range(12 * cfg[0] ** 2)
+                if (cra[c] > 360.0 - hw or cra[c] < hw) and lo < cdec[c] < hi]
+        nf = (cfg[1] // cfg[0]) ** 2
+        pix = []
+        for c in covp[:12]:
+            pix += list(range(c * nf, (c + 1) * nf))
     elif shape == 'patches':
         pix = []
         for _ in range(3):
@@ -1269,6 +1339,10 @@ def gen_c20(rng):
         if len(pix) <= 12 and rng.random() < 0.6:
             st['n'] = 60 * len(pix) + 100
             st['occupancy'] = True
+        elif shape == 'polar_lon0':
+            st['n'] = 100 * len(pix) + 100
+            st['occupancy'] = True
+            st['timeout'] = 60
     hist.append(st)
     return hist
 
@@ -1332,11 +1406,16 @@ def gen_geom(rng, wide_only=False):
     nxt = 5
     for _ in range(rng.randint(1, 3)):
         q = rng.random()
-        if q < 0.2:
+        if q < (0.35 if kind == 'wide' else 0.2):
             v = val()
             st = dict(op='geom', mode='get_map', out=nxt, shape=rand_shape(rng, cfg[1]), value=v, nc=cfg[0], ns=cfg[1])
             if kind == 'wide':
                 st['maxbits'] = rng.choice([None, None, max(v) + 1, max(v) + 9])
+                if st['maxbits'] is None and rng.random() < 0.6:
+                    # the width is inferred from a bit list whose largest bit lies on a byte boundary
+                    top = rng.choice([0, 8, 16, 24, 32])
+                    v = sorted(set([b for b in v if b < top] + [top]))
+                    st['value'] = v
             else:
                 st['dtype'] = mk.get('dtype', 'b') if kind != 'packed' else 'b'
             if kind == 'packed':
